@@ -27,6 +27,21 @@ import (
 )
 
 var ErrInjected = errors.New("pgfake: injected failure")
+
+// retryableError is what the driver reports for a pooled connection found dead before
+// anything was sent: pgconn.SafeToRetry says yes.
+type retryableError struct{}
+
+func (retryableError) Error() string     { return "pgfake: injected failure (conn closed, safe to retry)" }
+func (retryableError) SafeToRetry() bool { return true }
+
+// injected returns the error of an injected fault.
+func (s *Server) injected() error {
+	if s.Retryable {
+		return retryableError{}
+	}
+	return ErrInjected
+}
 var ErrAborted = errors.New("pgfake: current transaction is aborted, commands ignored until end of transaction block (SQLSTATE 25P02)")
 
 // Event is one entry of the transaction log.
@@ -60,6 +75,8 @@ type Server struct {
 	// that the server did not see, e.g. a client-side failure); by default the transaction
 	// is aborted the way Postgres aborts it and every later statement in it fails
 	Lenient bool
+	// Retryable: injected faults are errors the driver calls safe to retry
+	Retryable bool
 }
 
 func NewServer() *Server {
@@ -191,7 +208,7 @@ func (c *Conn) BeginTx(ctx context.Context, opts pgx.TxOptions) (pgx.Tx, error) 
 	}
 	if s.stepCtx(ctx) {
 		s.logf("begin", 0, false, "injected")
-		return nil, ErrInjected
+		return nil, s.injected()
 	}
 	s.nextTx++
 	tx := &Tx{srv: s, id: s.nextTx, overlay: map[string][]byte{}}
@@ -240,7 +257,7 @@ func (t *Tx) Commit(ctx context.Context) error {
 	if s.stepCtx(ctx) {
 		t.end(false)
 		s.logf("commit", t.id, false, "injected")
-		return ErrInjected
+		return s.injected()
 	}
 	if t.aborted {
 		t.end(false)
@@ -264,7 +281,7 @@ func (t *Tx) Rollback(ctx context.Context) error {
 	t.end(false)
 	if fail {
 		s.logf("rollback", t.id, false, "injected")
-		return ErrInjected
+		return s.injected()
 	}
 	s.logf("rollback", t.id, true, "")
 	return nil
@@ -291,7 +308,7 @@ func (t *Tx) usable(ctx context.Context, op string) error {
 	if s.stepCtx(ctx) {
 		t.aborted = !s.Lenient
 		s.logf(op, t.id, false, "injected")
-		return ErrInjected
+		return s.injected()
 	}
 	if t.aborted {
 		s.logf(op, t.id, false, "aborted")
@@ -411,7 +428,7 @@ func (r *Rows) Next() bool {
 	}
 	if s.step() {
 		// a failed fetch: the result set ends prematurely, the transaction is broken
-		r.err = ErrInjected
+		r.err = r.tx.srv.injected()
 		r.closed = true
 		r.tx.aborted = !s.Lenient
 		s.logf("next", r.tx.id, false, "injected")
@@ -434,7 +451,7 @@ func (r *Rows) Scan(dest ...any) error {
 	}
 	if s.step() {
 		s.logf("scan", r.tx.id, false, "injected")
-		return ErrInjected
+		return s.injected()
 	}
 	row := r.rows[r.pos-1]
 	if len(dest) != len(row) {
